@@ -191,6 +191,7 @@ package parser
 //@   ensures err == nil ==> field != nil && fresh(field)
 //@   modifies Annotation.Values
 //@   loop 1 invariant node == nil || pegowner(node) == ruleField
+//@   loop 1 step ncalls("strconv.ParseInt") != pre(ncalls("strconv.ParseInt")) ==> callarg("strconv.ParseInt", 0) == callret("p.pegText", 0) && callarg("strconv.ParseInt", 1) == 10 && callarg("strconv.ParseInt", 2) == 32
 
 //@ func (p *parser) parseAnnotations(node *node32) ([]*Annotation, error)
 //@   requires p != nil && node != nil && wfPEG(p)
@@ -200,6 +201,7 @@ package parser
 
 //@ func (p *parser) parseAnnotation(node *node32) (k, v string, err error)
 //@   requires p != nil && node != nil && wfPEG(p)
+//@   proves err == nil ==> ncalls("p.pegText") == 2 && v == callret("p.pegText", 0)
 
 //@ func (p *parser) parseService(node *node32) (err error)
 //@   requires p != nil && node != nil && wfPEG(p)
